@@ -109,4 +109,5 @@ void files_arm_stop(long n);
 long files_mut_calls();
 void files_set_mtime(const std::string &p, time_t t);
 void files_save_state(const std::string &path);
+void files_set_read_faults(long short_read, long eio_in);
 void files_load_state(const std::string &path);
